@@ -496,6 +496,7 @@ Section Coherence.
     - (* UpdateOrg *) cbn in Ea. dcond; [|discriminate]. inversion Ea; subst; clear Ea. cbn. split; [reflexivity|]. split; [apply do_inval_db|].
       apply Inv_do_inval. apply (Inv_same_load dead); auto; intros t Hn; (split; [auto|]); apply load_ext; reflexivity.
     - (* DeleteOrg *) destruct (c_inval c KDeleteOrg); try discriminate. cbn. (split; [reflexivity|]). (split; [reflexivity|]). (first [apply Inv_all_inval; exact W' | split; [exact W'|split; cbn; intros; contradiction]]).
+    - (* RealignOrg *) destruct (c_inval c KRealignOrg); try discriminate. cbn. (split; [reflexivity|]). (split; [reflexivity|]). (first [apply Inv_all_inval; exact W' | split; [exact W'|split; cbn; intros; contradiction]]).
     - (* CreateTeam *) cbn in Ea. dcond; [|discriminate]. inversion Ea; subst; clear Ea. cbn. split; [reflexivity|]. split; [apply do_inval_db|].
       apply Inv_do_inval. apply (Inv_same_load dead); [exact HI|exact W'|]. intros t Hn. split; [auto|].
       apply (load_new_team (s_db s) t {| tm_id := n_team (s_db s); tm_org := o; tm_enabled := true |}).
